@@ -1,5 +1,6 @@
 """Symbolic interpretation of obligations (proving interpreter only: imports the SMT layer)."""
 import contextlib
+from gsv.engine import loader
 import io
 import time
 from fractions import Fraction
@@ -497,6 +498,7 @@ def run_symbolic(fn, repo, eager=False, cert_backends=("z3",), max_paths=MAX_PAT
         st.decider = smt.decider
         st.range_oracle = smt.range_oracle
         symscipy.reset_ghost(solver_model)
+        loader.restore_state(repo)
         k = SymKernel(repo, st)
         rec = {"trail": None, "goals": []}
         certs = []
